@@ -594,24 +594,31 @@ EXHAUSTIVE = {"quick": "all 255 single-byte strings/keys; every pad length so th
                        "threshold fall on every byte of a probe document",
               "thorough": "all 255 single-byte strings/keys; every pad length across 150 bytes around 16382*k (k=1..4) and 16000"}
 
-LEVEL_TEXT = ("Proved in Lean 4 for ALL Var trees (any depth/size; 32-bit ints; strings and keys = arbitrary NUL-free bytes incl. control "
-              "characters, quotes, backslashes, '/', 0x7f, high bytes), about the executable model of XdlEncoder/Xdl::write/Xdl::read "
-              "(lean/AslModel/Xdl.lean) and the decoder model of C06: encode_in_rfc / encode_is_json_text (compact and pretty JSON output is "
-              "derivable in the RFC 8259 grammar - written from the RFC as an inductive relation - and denotes the tree: the independent-parser "
-              "clause), string_escaping_exact, int_lexeme_exact (myitoa spells the int, INT_MIN included), json_roundtrip (decode(encode v) = the "
-              "normalised denotation, both layouts; corollary of encode_in_rfc + C06 rfc_accept), roundtrip_int / roundtrip_scalars / "
-              "roundtrip_object_members (what comes back), sink_concat / writer_refines (the 16000-byte flushing sink loses and duplicates nothing, "
-              "every mode incl. XDL), read_chunks (reading in 16382-byte chunks with BOM probe = decode of the content, any size), file_roundtrip, "
-              "xdl_roundtrip (Xdl::decode(Xdl::encode v) for identifier keys and class names: Y/N, name=value, Class{...}; compact AND pretty layout, "
-              "the latter with newline-only separators read in the WAIT_COMMA_OR_* states). "
-              "Number formatting enters as the hypothesis H1 (snprintf %.Pg prints an RFC number lexeme); the driver's instance (Dtoa.fmtG) is "
-              "compared with glibc byte for byte on every run. The model is tied to the code by the correspondence check under ASan (encode bytes in "
-              "8 modes, decode∘encode, write/read through files slid across the 16382/16000 boundaries) and python3 json parses every JSON-mode output.")
-LEVEL_NOTE = ("Partial: bit-exact recovery of doubles/floats is H2 (atof(%.17g x) = x, glibc) - kept as `def double_roundtrip_full`, exercised by K "
-              "and the python oracle on every generated double/float (denormals, +-DBL_MAX, -0, powers of two +-1ulp, random bits), not proved. "
-              "XDL: round trip proved for both layouts (keys [A-Za-z0-9_$][A-Za-z0-9_]*, class names not starting with a digit and not Y/N/true/false/null); "
-              "file_roundtrip is stated for JSON modes (sink_concat and read_chunks cover XDL files too). H1 is a hypothesis of the theorems, not proved for Dtoa.fmtG. "
-              "Fixed in /repo for this property: 737b5bf (raw control characters), 88049f3 ('/' in quoted keys), a755d42 (found by this check: "
-              "files of 1-2 bytes such as '5' or '[]' could not be read back), c9789c6 (C06: nesting limit). Not a defect as worded: -0.0 and "
-              "integral doubles are written without fraction ('-0', '5') and come back as ints of the same numeric value; ints of 10+ characters "
-              "come back as doubles of the same value.")
+LEVEL_TEXT = ("Proved in Lean 4 about the executable model of XdlEncoder/Xdl::write/Xdl::read (lean/AslModel/Xdl.lean) and the decoder model of C06, "
+              "for every Var tree with 32-bit ints, NUL-free strings/keys (any other bytes: control characters, quotes, backslashes, '/', 0x7f, "
+              "high bytes), any size, nesting <= 1000 (= XDL_MAX_DEPTH; deeper texts are rejected by the decoder, so the round trip is false "
+              "beyond it): encode_in_rfc / encode_is_json_text (compact and pretty JSON output is derivable in the RFC 8259 grammar - an inductive "
+              "relation written from the RFC - and denotes the tree; for reals 'denotes' = the printed lexeme, whose VALUE is pinned by H1v: "
+              "encode_number_value), string_escaping_exact, encString_utf8 / encode_utf8 (well-formed UTF-8 in => well-formed UTF-8 out, every "
+              "mode), int_lexeme_exact and atof_int_exact (myitoa spells the int; the model atof of that lexeme is exactly the int - the 10+ "
+              "character ints), json_roundtrip + json_roundtrip_same (decode(encode v) has the structure of v: same array lengths/order, same "
+              "keys in order, identical strings/booleans, undefined members dropped - relation Same, for trees with distinct keys), "
+              "xdl_roundtrip + xdl_roundtrip_same (compact and pretty XDL, identifier keys incl. digit-first, class names), sink_concat / "
+              "writer_refines (the 16000-byte flushing sink loses and duplicates nothing, every mode), read_chunks, file_roundtrip and "
+              "xdl_file_roundtrip (write then read through a file of any size = decode(encode)), double_roundtrip / float_roundtrip (the "
+              "bit-for-bit clauses, conditional on H2d/H2f = 'atof of the 17/9-digit lexeme is the number', a statement about libc), fmtG_H1 "
+              "(H1 PROVED for the formatter the driver runs, so no theorem is vacuous for that instance) and fmtG_digits_rounded_partial (its "
+              "digits are the value rounded half-even to P digits, exact over Q). The model is tied to the code by the correspondence check "
+              "under ASan (encode bytes in 8 modes incl. non-string $type, decode(encode), write/read through files slid across the 16382/16000 "
+              "boundaries, nesting 999/1000/1001) and python3 json parses every JSON-mode output.")
+LEVEL_NOTE = ("Partial / not proved: (1) H2d and H2f (17 resp. 9 digits identify a double/float through atof) are hypotheses - `def "
+              "double_roundtrip_full` states H2d for the concrete Dtoa.fmtG/Strtod.atofBits; K and the python oracle exercise it on every "
+              "generated number (denormals, +-DBL_MAX, -0, powers of two +-1ulp, random bits). (2) `def fmtG_rounds_full` (H1v for Dtoa.fmtG: "
+              "the printed lexeme's VALUE is the correctly rounded value) - proved: shape (fmtG_H1) and rounding of the digits "
+              "(fmtG_digits_rounded_partial); missing: reading the three %g layouts back to n*10^(x-P+1). (3) Strtod.atofBits is proved exact "
+              "on integer lexemes only (atof_int_exact), not correctly rounded in general. Same/SameX need distinct keys per object (what Dic "
+              "guarantees); with duplicate keys the last value wins (C06 norm_object_lookup). XDL theorems need identifier keys and a string "
+              "class name (non-string $type is covered by sink_concat/writer_refines and K only). "
+              "Fixed in /repo for this property: 737b5bf, 88049f3, a755d42 (found by this check: 1-2 byte files could not be read back), "
+              "c9789c6 (nesting limit). Not a defect as worded: -0.0 and integral doubles are written without fraction ('-0', '5') and come back "
+              "as ints of the same numeric value; ints of 10+ characters come back as doubles of the same value (atof_int_exact).")
